@@ -31,6 +31,8 @@ pub fn install_solvers() -> Result<(), String> {
     std::fs::create_dir_all(dir).map_err(|e| e.to_string())?;
     let exe = std::env::current_exe().map_err(|e| e.to_string())?;
     let refsolver = exe.parent().unwrap().join("refsolver");
+    // (a private copy of vcheck, as made by tools/run_thorough.sh, uses the refsolver of the regular build)
+    let refsolver = if refsolver.exists() { refsolver } else { std::path::PathBuf::from("/verif/target/release/refsolver") };
     if !refsolver.exists() {
         return Err(format!("{} does not exist", refsolver.display()));
     }
